@@ -51,6 +51,11 @@ CHECKS = {
    text="Static: every registered name and alias (listed from the live map) resolves to an entry with cursor addressing; every parameterized field is a well-formed terminfo program using at most the parameters tcell supplies; unparameterized fields carry no parameter constructs; Colors agrees with the colour strings, each index decoded through the reference SGR interpreter; key table prefix-free. Histories: about 340 names (registered x variant suffixes + unknown names); for every ordered pair under 6 (thorough 12) COLORTERM/TCELL_TRUECOLOR settings the second lookup's result must deep-equal the same lookup on a freshly restored database, and each single lookup is checked against the documented synthesis / environment semantics. States = (database state after one lookup), transitions = lookups executed on the real LookupTerminfo.",
    note="Database snapshot/restore is a verif accessor (deep copy); tcell.LookupTerminfo's infocmp fallback is outside the built-in database and not exercised.",
    design="2/C14"),
+ "C20": dict(level="model_checking",
+   technique="explicit-state BFS over ViewPort operation histories and BoxLayout edit histories plus complete enumeration of child lists, observed through recording parent/child views",
+   text="ViewPort: breadth-first search (depth 3, thorough 4; states merged on the complete reported geometry) over 82 operations on three parent sizes; after every transition all 100 content cells of -1..8^2 are pushed through a copy of the viewport and each resulting parent write must be exactly the translated cell inside the viewport rectangle, Fill must cover exactly the rectangle, and adjusted offsets must equal the clamped value. BoxLayout: every child list of length 1..4 over preferred {0,1,3} x fill {0,.5,1,2} x extents 0..12 x both orientations (thorough also all 5-child lists and 8-child lists over a reduced alphabet), BFS over Add/Insert/Remove/Resize/SetOrientation histories to depth 4 (5), and a nested layout; recording children paint their whole view plus a one-cell halo and the recording parent checks order, disjointness, containment, preferred extents and exact floor/ceil proportional surplus.",
+   note="Geometry is read through the public getters; fill factors non-negative; depth-bounded histories.",
+   design="2/C20"),
  # --- new checks above this line ---
 }
 
